@@ -7,6 +7,33 @@ HERE = os.path.dirname(os.path.dirname(os.path.abspath(__file__)))
 CMD = "PYTHONPATH=/repo/src PYTHONHASHSEED=0 /venv/bin/python harness/check.py %s --tier %s"
 
 CHECKS = {
+    "C03": dict(
+        engine="E2-handler",
+        technique="Coq proof (location matching iff-characterisations, soundness/completeness/silence/independence of the per-event action selection, merge keeps actions up to permutation) + in-Coq correspondence with the real handler on synthetic events, poll responses and live multi-threaded programs",
+        text="8 Coq theorems over Match.v: a line location matches exactly the line events of that file name and line, a "
+             "named method location exactly the call events of that function name in that file, return/exception events "
+             "match nothing; whatever acts at an event belongs to an installed trigger at that location with an open gate "
+             "(only-when), every such action acts (when), no matching trigger means no action, each trigger contributes what "
+             "it contributes alone wherever it stands, and the merge of same-location tracepoints of a response keeps every "
+             "action. Tied to the code by generated trigger lists x events of all kinds, the same through convert_response, "
+             "and live programs (generator, caught exception, 3 threads) with every delivered event recorded.",
+        note="Trusted: Coq kernel+VM; harness; scope is the events CPython delivers to the handler; gates open (C04/C10 decide gates); "
+             "effect order within one event normalised.",
+        design="5-C03"),
+    "C15": dict(
+        engine="E2-handler",
+        technique="Coq proof (grouped-by-live-invocation invariant of the pending store over all well-formed traces and all opening choices; at-most-once, not-late, in-extent, drained, thread independence; top-only discipline refuted) + in-Coq correspondence with the real handler driven by real threads",
+        text="8 Coq theorems over Callbacks.v: for every well-formed event trace of a thread and every choice of events that open "
+             "contexts, each context is completed at most once and strictly after it was opened; a pending context always "
+             "belongs to a running invocation and the return of an invocation completes everything it opened; a completion "
+             "happens at an event of an invocation with the opener's file/function name inside the opener's extent; when the "
+             "outermost invocation has returned nothing is pending and every context was completed exactly once; threads' "
+             "stores evolve independently under any interleaving; the pre-repair top-only rule is refuted by a checked witness. "
+             "Tied to the code by 1-3 real threads delivering generated traces (same-named nesting, caught/propagating "
+             "exceptions) to the real handler with span/capture tracepoints; opened/completed contexts per event compared in Coq.",
+        note="Trusted: Coq kernel+VM; harness; CPython's event grammar per thread. Known finding: a capture completed by a "
+             "same-named nested invocation carries that invocation's value (name matching).",
+        design="5-C15"),
     "C04": dict(
         engine="E2-handler",
         technique="Coq proof (state invariant over all hit histories: count, spacing, window, liveness; invariant of the N-thread interleaving semantics over all schedules; unlocked discipline refuted by witness) + in-Coq correspondence under a virtual clock and forced schedules",
@@ -133,8 +160,8 @@ def main():
         engines=[
             dict(name="E1-collector", path="coq/theories/Collector.v coq/theories/CollectorProofs.v coq/theories/Frames.v harness/lib/e1.py harness/lib/objgen.py harness/props/c02.py harness/props/c05.py harness/props/c06.py harness/props/c07.py",
                  serves_properties=["C02", "C05", "C06", "C07"], kind_free_text="Gallina work-list collector over abstract heaps; step invariants; in-Coq correspondence on generated object graphs"),
-            dict(name="E2-handler", path="coq/theories/Limiter.v coq/theories/LimiterProofs.v coq/theories/Cond.v harness/lib/e2.py harness/props/c04.py harness/props/c10.py",
-                 serves_properties=["C04", "C10"], kind_free_text="Gallina models of the rate limiter (sequential and interleaved), condition gate and scope; real TriggerHandler with recording plugins, virtual clock, synthetic frames, forced schedules"),
+            dict(name="E2-handler", path="coq/theories/Limiter.v coq/theories/LimiterProofs.v coq/theories/Cond.v harness/lib/e2.py harness/props/c04.py harness/props/c10.py coq/theories/Match.v coq/theories/MatchProofs.v coq/theories/Callbacks.v coq/theories/CallbacksProofs.v harness/props/c03.py harness/props/c15.py",
+                 serves_properties=["C03", "C04", "C10", "C15"], kind_free_text="Gallina models of the rate limiter (sequential and interleaved), condition gate and scope; real TriggerHandler with recording plugins, virtual clock, synthetic frames, forced schedules"),
             dict(name="E4-stores", path="coq/theories/Attrs.v coq/theories/AttrsProofs.v coq/theories/Config.v harness/props/c18.py harness/props/c19.py",
                  serves_properties=["C18", "C19"], kind_free_text="Gallina models of the attribute store, resources, configuration resolution; proofs; in-Coq correspondence"),
         ],
